@@ -263,6 +263,8 @@ probe }
 
 
 
+    // NOTE (R17): preservation of `runs_short` by adjust_or_put_value / resize is NOT provable (it is a hash-quality property: probe runs stay
+    // shorter than DRIFT_LIMIT); unit fi_sketch assumes it explicitly, here it shows up as vx_hash_quality and as a precondition of purge.
     fn adjust_or_put_value ( & mut self , key : T , adjust_amount : u64 ) requires eq_law :: < T > ( ) , old ( self ) . wf ( ) , old ( self ) . num_active + 1 < old ( self ) . states @ . len ( ) , old ( self ) . val ( key ) + adjust_amount <= u64 :: MAX , ensures final ( self ) . wf ( ) , final ( self ) . lg_length == old ( self ) . lg_length , final ( self ) . load_threshold == old ( self ) . load_threshold , forall | k2 : T | final ( self ) . val ( k2 ) == ( if k2 == key {
 ( old ( self ) . val ( key ) + adjust_amount ) as u64 }
 else {
